@@ -31,7 +31,8 @@ ASSUMPTIONS = [
     "signatures are store independent (C03), so the twin run on another store gives the keys of the failed evaluation",
 ]
 
-EXCS = ["ValueError", "KeyError", "CustomError", "KeyboardInterrupt", "SystemExit", "GeneratorExit", "DDSException", "MemoryError"]
+EXCS = ["ValueError", "KeyError", "CustomError", "KeyboardInterrupt", "SystemExit", "GeneratorExit", "DDSException", "MemoryError",
+        "AssertionError:empty", "ValueError:empty", "KeyboardInterrupt:empty"]
 STORES = [("memory", None), ("local", None), ("local-lru", 2)]
 
 
@@ -40,6 +41,17 @@ def case_strategy(opts):
 
     @st.composite
     def gen(draw):
+        if draw(st.integers(0, 7)) == 0:
+            # a pipeline that keeps a path, reads it back with dds.load in the same evaluation, and then fails in a later function
+            from . import c09
+
+            prog, root, _p, _rk = c09.build(draw(st.sampled_from(["root", "helper", "kept", "kept_helper"])), "same_before",
+                                            draw(st.sampled_from(["data", "keepcall"])), 0, False, False, draw(st.booleans()))
+            prog["funcs"].append({"name": "tail", "mod": 0, "params": [], "ver": 0, "pad": 0, "data": None, "body": [["ext", 2]]})
+            prog["funcs"][root]["body"].append(["call", len(prog["funcs"]) - 1, "bare", []])
+            kind, cache = draw(st.sampled_from(STORES))
+            return {"prog": prog, "root": root, "style": "eval", "node": "tail", "node2": "tail", "exc": draw(st.sampled_from(EXCS)),
+                    "exc2": draw(st.sampled_from(EXCS)), "store": [kind, cache], "follow": draw(st.lists(st.sampled_from(["same", "fail_other", "same"]), min_size=1, max_size=2))}
         prog = draw(G.programs(opts))
         ents = G.entries(prog)
         root, style = draw(st.sampled_from(ents[-2:] if len(ents) > 1 else ents))
